@@ -17,6 +17,7 @@ ASSUMPTIONS = ['reference layout: 0x05 || binary Micheline (ref/michbin.py) of t
 TYPES_Q = ['int', 'nat', 'mutez', 'timestamp', 'string', 'bytes', 'bool', 'unit', 'pair int nat', 'pair int nat string', 'pair int nat string bytes',
            'pair int nat bool unit mutez', 'pair (pair int nat) (pair string bytes)', 'pair (pair int nat string bytes) int',
            'option int', 'option (pair int nat string bool)', 'or int (pair nat string)', 'list int', 'list (pair int nat string bytes)',
+           'pair (nat %a) (pair %rest (nat %b) (pair %tail (nat %c) (nat %d)))', 'pair (int :x) (pair :p (nat %y) (pair (string %s) (pair %q (bytes %b) (bool %f))))',
            'set nat', 'map string int', 'map (pair int int) (option bytes)', 'pair (list int) (map nat bool) (option unit) (or string int)']
 TYPES_T = ['pair int (pair nat (pair string (pair bytes (pair bool unit))))', 'list (list (option (pair int int int int)))', 'map int (map string (pair nat nat nat nat))']
 UNPACK_TYPES = ['int', 'string', 'pair int nat', 'option bool', 'list int', 'pair int nat nat nat']
@@ -106,6 +107,59 @@ def sym_unpack_buffer(P, ex):
         except michbin.Reject:
             ex.fail_here('UNPACK returns Some for bytes that are not valid binary Micheline')
         ex.check(True)
+
+
+def sym_unpack_length(P, ex):
+    """PACK v with the low byte of one 4-byte length prefix perturbed by a symbolic non-zero delta: UNPACK must return None
+    unless the perturbed bytes are valid binary Micheline for the reference decoder."""
+    from ref import michbin
+    from vf import bvx
+
+    ty = mich.T(P['type'])
+    ex.int_backend = 'bv'
+    ex._bv_ints = 0
+    with mbv.env(forge=True):
+        v = mbv.sym_value(ex, ty, 'v', P['maxlen'], P['maxcoll'])
+        packed = mich.run_instr(mich.I({'prim': 'PACK'}), [v])[0].value
+        items = list(packed.items) if isinstance(packed, bvx.SymBytes) else list(packed)
+        off = P['offset']
+        if off >= len(items):
+            raise bvx.Abort()
+        d = ex.byte('delta')
+        ex.assume(d != 0)
+        items[off] = (items[off] + d) & 0xFF
+        mut = bvx.SymBytes(items)
+        r = mich.run_instr(mich.I({'prim': 'UNPACK', 'args': [ty.as_micheline_expr()]}), [mich.mk('bytes', mut)])[0]
+        if r.item is None:
+            ex.check(True)
+            return
+        try:
+            michbin.decode(bvx._norm_bytes(items[1:]), symbolic_prims=True)
+        except michbin.Reject:
+            ex.fail_here('UNPACK returns Some for bytes whose length prefix is inconsistent')
+        ex.check(True)
+
+
+def conc_unpack_length(P, w):
+    from ref import michbin
+
+    ty = mich.T(P['type'])
+    v = mbv.conc_value(ty, w, 'v')
+    packed = bytearray(mich.run_instr(mich.I({'prim': 'PACK'}), [v])[0].value)
+    off = P['offset']
+    if off >= len(packed):
+        return {'ok': True, 'note': 'offset beyond the encoding'}
+    packed[off] = (packed[off] + int(w['delta'])) & 0xFF
+    r = mich.run_instr(mich.I({'prim': 'UNPACK', 'args': [ty.as_micheline_expr()]}), [mich.mk('bytes', bytes(packed))])[0]
+    if r.item is None:
+        return {'ok': True, 'observed': 'None'}
+    try:
+        michbin.decode(bytes(packed[1:]))
+    except michbin.Reject as e:
+        return {'ok': False, 'data': bytes(packed).hex(), 'observed': repr(r), 'expected': f'None ({e})'}
+    except michbin.OutsideClaim:
+        pass
+    return {'ok': True, 'observed': repr(r)}
 
 
 def conc_unpack_buffer(P, w):
@@ -214,6 +268,10 @@ def obligations(tier):
         for n in ((1, 2, 3) if q else (1, 2, 3, 4)):
             obs.append(Ob(f'unpack-buffer/{s}/n={n}', 'bvx', sym_unpack_buffer, conc_unpack_buffer, {'type': s, 'n': n}, timeout=t, opts={'W': 64},
                           bounds=f'UNPACK {s} of 0x05 followed by every byte string of length {n}', targets=TARGETS))
+    # 05 02 LLLL ...: the low byte of the outer length prefix is at offset 5; for a nested list the first inner prefix low byte is at offset 10
+    for s, off in (('list nat', 5), ('list (list nat)', 5), ('list (list nat)', 10), ('pair nat nat nat nat', 5), ('list (pair nat string)', 5), ('map nat nat', 5)):
+        obs.append(Ob(f'unpack-length/{s}@{off}', 'bvx', sym_unpack_length, conc_unpack_length, {'type': s, 'offset': off, 'maxlen': 1, 'maxcoll': 2}, timeout=t, opts={'W': 64},
+                      bounds=f'PACK of every value of {s} (collections <= 2, first int < 2^54), length prefix byte at offset {off} perturbed by every non-zero delta', targets=TARGETS))
     obs.append(Ob('unpack/no-05-prefix', 'bvx', sym_no_05, conc_no_05, {'n': 3}, timeout=t, opts={'W': 64}, bounds='every 3-byte string not starting with 0x05', targets=TARGETS))
     for tname, kind, ep in DOMAIN:
         obs.append(Ob(f'pack-domain/{tname}/{kind}/{ep or "-"}', 'bvx', sym_pack_domain, conc_pack_domain, {'type': tname, 'kind': kind, 'entrypoint': ep},
